@@ -266,14 +266,16 @@ theorem step_types (c c' : Chan) (ev : Ev) (ms : List Msg) (os : List Out)
       obtain ⟨rfl, rfl⟩ := h1
       exact ⟨hok, bufOK_nil _⟩
   | close =>
-    obtain ⟨c1, h1, h2⟩ := step_close_ok h
-    have h3 : bufOK c.writeTypes c1.sendBuf ∧ bufOK c.writeTypes (dataOf ms) := by
+    obtain ⟨c1, ms1, h1, h2⟩ := step_close_ok h
+    have h3 : bufOK c.writeTypes c1.sendBuf ∧ bufOK c.writeTypes (dataOf ms1) := by
       rcases h1 with ⟨_, _, h1⟩ | ⟨_, hc1, hm⟩
       · exact flushSend_types _ _ _ _ h1 hok
       · rw [hc1, hm]; exact ⟨hok, bufOK_nil _⟩
-    rcases h2 with ⟨_, hc', _⟩ | ⟨_, hc', _⟩
-    · rw [hc', (discardRecv_spec c1).sendBuf]; exact h3
-    · rw [hc']; exact h3
+    rcases h2 with ⟨_, hc', hm', _⟩ | ⟨_, hc', hm', _⟩
+    · rw [hc', hm', (discardRecv_spec c1).sendBuf, dataOf_append, discardRecv_msgs, dataOf_discardCredit,
+        List.append_nil]
+      exact h3
+    · rw [hc', hm']; exact h3
   | pause => obtain ⟨rfl, rfl, _⟩ := step_pause_ok h; exact ⟨hok, bufOK_nil _⟩
   | armPause k => obtain ⟨rfl, rfl, _⟩ := step_arm_ok h; exact ⟨hok, bufOK_nil _⟩
   | resume =>
@@ -290,7 +292,7 @@ theorem step_types (c c' : Chan) (ev : Ev) (ms : List Msg) (os : List Out)
       obtain ⟨_, _, _, ha⟩ := step_recv_data_ok h
       rcases acceptData_cases c bs dt with ⟨_, h1⟩ | ⟨_, _, h1⟩ | ⟨_, _, _, h1⟩ | ⟨_, _, _, h1⟩
       · rw [h1] at ha; cases ha; exact ⟨hok, bufOK_nil _⟩
-      · rw [h1] at ha; cases ha; exact ⟨hok, bufOK_nil _⟩
+      · rw [h1] at ha; cases ha; rw [dataOf_sendPkt_adjust]; exact ⟨hok, bufOK_nil _⟩
       · rw [h1] at ha; cases ha; exact ⟨hok, bufOK_nil _⟩
       · rw [h1] at ha
         obtain ⟨sp, _⟩ := deliverData_spec c bs dt
